@@ -330,7 +330,8 @@ func (p *NodeSelectionBuilder) rebuildFieldDependencyIndexes() (stillRequiredRef
 
 	v.fieldRefDependsOn = make(map[int][]int, len(v.fieldRefDependsOn))
 	stillRequiredRefs = make(map[int]struct{})
-	for key, requiredRefs := range v.fieldDependsOn {
+	for _, key := range sortedFieldIndexKeys(v.fieldDependsOn) {
+		requiredRefs := v.fieldDependsOn[key]
 		v.fieldRefDependsOn[key.fieldRef] = append(v.fieldRefDependsOn[key.fieldRef], requiredRefs...)
 		for _, requiredRef := range requiredRefs {
 			stillRequiredRefs[requiredRef] = struct{}{}
